@@ -235,6 +235,13 @@ func ruleC13For(c *Ctx, sub *ssa.Function, do, rr, pm *ssa.Call, first bool) {
 					return vFieldLoadO("net/http.Response", ac.field)(recv) && ga[0] == ssa.Value(paramOf(f, 0))
 				}))
 			}
+			if !ok && ac.via != "" {
+				// "no values" answered outright for a nil header map: what Get / Values answer for it themselves
+				k, isK := constString(r.Results[0])
+				if (isNilConst(r.Results[0]) || isK && k == "") && guardedBy(r, nil, factNil(vFieldLoadO("net/http.Response", ac.field), true)) {
+					ok = true
+				}
+			}
 			c.obI("R13.2", r, "adapter-"+ac.m, ok, "the adapter's "+ac.m+" returns the response's "+ac.field, "")
 		}
 	}
@@ -310,20 +317,34 @@ func ruleC13For(c *Ctx, sub *ssa.Function, do, rr, pm *ssa.Call, first bool) {
 		// what matters is every USE of the transport-wide context (a method called on it, handing it to a call, selecting
 		// it as the parent): comparing it with nil or listing it as a candidate consults nothing
 		okU, whyU := true, ""
-		for _, ref := range *ld.Referrers() {
-			switch u := ref.(type) {
-			case ssa.CallInstruction:
-				if !guardedBy(u, nil, noOpCtx) {
-					okU, whyU = false, "Runtime.Context is used by "+calleeName(u.Common())+" although the operation has its own context"
-				}
-			case *ssa.Phi:
-				for i, e := range u.Edges {
-					if e == ssa.Value(ld) && !edgeGuarded(u.Block().Preds[i], u.Block(), nil, noOpCtx) {
-						okU, whyU = false, "Runtime.Context can be selected although the operation has its own context"
+		// (a merge that may carry the transport-wide context without the operation's having been looked at is judged on ITS
+		// uses in turn: `ctx := Background(); if r.Context != nil { ctx = r.Context }; if op.Context != nil { ctx = op.Context }`
+		// lets the provisional choice through only on the edge "the operation has none")
+		var usesOK func(v ssa.Value, depth int)
+		usesOK = func(v ssa.Value, depth int) {
+			if v.Referrers() == nil {
+				return
+			}
+			for _, ref := range *v.Referrers() {
+				switch u := ref.(type) {
+				case ssa.CallInstruction:
+					if !guardedBy(u, nil, noOpCtx) {
+						okU, whyU = false, "Runtime.Context is used by "+calleeName(u.Common())+" although the operation has its own context"
+					}
+				case *ssa.Phi:
+					for i, e := range u.Edges {
+						if e == v && !edgeGuarded(u.Block().Preds[i], u.Block(), nil, noOpCtx) {
+							if depth > 0 {
+								usesOK(u, depth-1)
+							} else {
+								okU, whyU = false, "Runtime.Context can be selected although the operation has its own context"
+							}
+						}
 					}
 				}
 			}
 		}
+		usesOK(ld, 3)
 		// (the same through a local the context was put into, also when a function literal started by Submit uses it)
 		if okU {
 			var walk func(fn *ssa.Function, site ssa.Instruction)
@@ -534,4 +555,34 @@ func ruleC13For(c *Ctx, sub *ssa.Function, do, rr, pm *ssa.Call, first bool) {
 		c.obI("R13.4", r, "newRequest-allocates", okA, "newRequest returns a fresh object", "")
 	}
 	c.min("R13.4", 4)
+}
+
+// ctxUsesGuarded: every use of the (merged) context value v — a call it is handed to or invoked on, a further merge it
+// enters — lies behind the fact noOp ("the operation carries no context"), merges being followed up to depth levels.
+func ctxUsesGuarded(v ssa.Value, noOp EdgePred, depth int) bool {
+	if v.Referrers() == nil {
+		return true
+	}
+	for _, ref := range *v.Referrers() {
+		switch u := ref.(type) {
+		case ssa.CallInstruction:
+			if !guardedBy(u, nil, noOp) {
+				return false
+			}
+		case *ssa.Phi:
+			for i, e := range u.Edges {
+				if e == v && !edgeGuarded(u.Block().Preds[i], u.Block(), nil, noOp) {
+					if depth <= 0 || !ctxUsesGuarded(u, noOp, depth-1) {
+						return false
+					}
+				}
+			}
+		case *ssa.DebugRef:
+		default:
+			if _, isVal := ref.(ssa.Value); isVal {
+				return false
+			}
+		}
+	}
+	return true
 }
